@@ -38,6 +38,10 @@ def tx_payload(parent, label):
     dt = 120
     if name == 'e':
         return [], K[4], dt
+    if name == 'x':       # empty block with the longest allowed reward data
+        return [], K[5], dt + 1, {'cb_data': b'r' * 200}
+    if name == 'y':       # empty block with 1 byte of reward data and a two-output reward
+        return [], K[5], dt + 2, {'cb_data': b'r', 'cb_outs': [(refmodel.subsidy(parent.height + 1) - 7, K[5]), (7, K[1])]}
     if name == 'f':       # funding: empty block mined by K0
         return [], K[0], dt
     if name == 's':       # split
